@@ -232,8 +232,38 @@ func tokens(d []byte, class string) []span {
 				i++
 			}
 		}
+	case "qstring":
+		// a double-quoted string, quotes included (no escapes inside, at most 200 bytes, on one line)
+		for i := 0; i < len(d); i++ {
+			if d[i] != '"' {
+				continue
+			}
+			j := i + 1
+			for j < len(d) && j-i <= 200 && d[j] != '"' && d[j] != '\\' && d[j] != '\n' {
+				j++
+			}
+			if j < len(d) && d[j] == '"' {
+				out = append(out, span{i, j + 1})
+				i = j
+			}
+		}
+	case "innerobj":
+		// an innermost {...} group (no braces inside, at most 400 bytes)
+		for i := 0; i < len(d); i++ {
+			if d[i] != '{' {
+				continue
+			}
+			j := i + 1
+			for j < len(d) && j-i <= 400 && d[j] != '{' && d[j] != '}' {
+				j++
+			}
+			if j < len(d) && d[j] == '}' {
+				out = append(out, span{i, j + 1})
+				i = j
+			}
+		}
 	default:
-		set := map[string]string{"quote": "\"'", "open": "{[<(", "close": "}]>)", "newline": "\n", "sep": ":=,", "slash": "/\\"}[class]
+		set := map[string]string{"quote": "\"'", "open": "{[<(", "close": "}]>)", "newline": "\n", "sep": ":=,", "slash": "/\\", "punct": "@#$%&*+;!?|~^"}[class]
 		for i := 0; i < len(d); i++ {
 			if in(d[i], set) {
 				out = append(out, span{i, i + 1})
@@ -259,6 +289,8 @@ func replacement(tok []byte, class, repl string) []byte {
 		return []byte("-1")
 	case "longline":
 		return longLine
+	case "null":
+		return []byte("null")
 	case "lower":
 		return bytes.ToLower(tok)
 	case "upper":
